@@ -6,7 +6,7 @@ open GA.Drv GA.Serde GA.Own
 
 def optNat (s : String) : Option Nat := s.toNat?
 
-def answer (kv : KV) : String :=
+def answer (kv : KV) (vs : Nat → Serde.Script → List Ev × VRes := visitSeq) (only : Bool := false) : String :=
   match kv.nat? "n" with
   | none => "bad-op"
   | some n =>
@@ -22,10 +22,10 @@ def answer (kv : KV) : String :=
       -- closing hint is asked in the same state as the up-front one
       let h0 := optNat (kv.getD "hint0" "none")
       let hE := if n = 0 then h0 else optNat (kv.getD "hintend" "none")
-      let r := visitSeq n ⟨h0, steps, hE, 0⟩
+      let r := vs n ⟨h0, steps, hE, 0⟩
       let res := match r.2 with | .ok _ => "ok" | .err => "err"
       s!"res={res} ev={",".intercalate (OwnE.canonEvs r.1)} out=[{showNats r.2.ids}]"
-    | "ser" =>
+    | "ser" => if only then "n/a" else
       let toks := serialize ((List.range n).map (· + 1))
       let elems := elemsOf toks
       let len := match toks with | .tupleStart l :: _ => l | _ => 0
@@ -39,7 +39,7 @@ def answer (kv : KV) : String :=
         if op = "de_json" then ⟨none, body cnt ++ [.none], none, 0⟩
         else if op = "de_value" then ⟨some cnt, body cnt ++ [.none], some (cnt - n), 0⟩
         else ⟨some n, body (min cnt n) ++ (if cnt < n then [.fail] else []), some 0, 0⟩
-      reduced (visitSeq n sc)
+      reduced (vs n sc)
     | _ => "bad-op"
 
 end GA.Drv.SerdeE
